@@ -98,6 +98,18 @@ let run_case (ops : string list) : string list =
                  done;
                  String.concat " " (List.rev !items))
           end else
+          if t.(0) = "fill" then begin
+            (* fill <s> <prefix> <n>: session s sets <prefix>/k<i> = i for i < n (pipelined on the wire, one after the other here) *)
+            let sn = n_of_int (int_of_string t.(1)) in
+            let acks = ref 0 in
+            for i = 0 to int_of_string t.(3) - 1 do
+              let m = MSet (n_of_int (i + 1), str_of_string (Printf.sprintf "%s/k%d" t.(2) i), JNum (str_of_string (string_of_int i))) in
+              let (w', out) = sstep !w (SMsg (sn, m)) in
+              w := w';
+              List.iter (fun (s', m') -> if s' = sn then (match m' with SAck _ -> incr acks | _ -> ())) out
+            done;
+            Printf.sprintf "%s:fill=%d" t.(1) !acks
+          end else
           if t.(0) = "storm" then
             (* concurrent traffic: judged by lib/storm.py on the implementation's observations (schedule-independent facts of
                Proofs/ConcFacts.v) and replayed serially through this driver in the order the server applied it *)
